@@ -359,6 +359,10 @@ struct Chooser {
     change_at: Vec<usize>,
     rr_cur: usize,
     rr_left: usize,
+    last: Option<usize>,
+    streak: u64,
+    demotions: u64,
+    style: u64,
 }
 impl Chooser {
     fn new(s: &Schedule, n: usize) -> Chooser {
@@ -371,18 +375,25 @@ impl Chooser {
         let mut change_at = vec![];
         if let Schedule::Pct(_, d) = s {
             for _ in 0..*d {
-                change_at.push(rng.below(64));
+                // log-uniform over 1 .. 2^17 decisions: runs differ by orders of magnitude in length
+                let e = rng.below(18);
+                change_at.push(rng.below(1usize << e).max(1) + if e > 0 { (1usize << e) / 2 } else { 0 });
             }
         } else {
             prio.iter_mut().for_each(|p| *p = 0);
         }
-        Chooser { kind: s.clone(), rng, pos: 0, prio, change_at, rr_cur: 0, rr_left: 0 }
+        let style = std::env::var("PP_SIM_STYLE").ok().and_then(|v| v.parse().ok()).unwrap_or([0u64, 0, 1, 2][(rng.next() % 4) as usize]);
+        Chooser { kind: s.clone(), rng, pos: 0, prio, change_at, rr_cur: 0, rr_left: 0, last: None, streak: 0, demotions: 0, style }
     }
     /// returns (thread, quantum): quantum = number of synchronisation points the thread may
     /// pass before it has to yield (only meaningful in the function-entry-instrumented build)
     fn pick(&mut self, runnable: &[usize]) -> (usize, u32) {
         let i = self.pos;
         self.pos += 1;
+        if i > 60_000 && !matches!(self.kind, Schedule::Explicit(_)) {
+            // bounded unfairness: a schedule that starves a thread another one spins on would never end
+            return (runnable[self.rng.below(runnable.len())], 64);
+        }
         match &self.kind {
             Schedule::Explicit(v) => {
                 if i < v.len() && runnable.contains(&(v[i] % 64)) {
@@ -393,20 +404,45 @@ impl Chooser {
             }
             Schedule::Random(_) => {
                 let t = runnable[self.rng.below(runnable.len())];
-                let q = match self.rng.below(4) {
-                    0 | 1 => 1,
-                    2 => self.rng.range(2, 4) as u32,
-                    _ => self.rng.range(5, 40) as u32,
+                // quantum style is fixed per scenario: fine (a switch after almost every
+                // synchronisation point: hits windows one or two points wide), coarse (log-uniform
+                // up to 2^13: lets a thread run through a whole critical section or table copy of
+                // thousands of atomic accesses while another is parked mid-way), or a mixture
+                let style = self.style;
+                let fine = match style {
+                    0 => true,
+                    1 => false,
+                    _ => self.rng.chance(1, 2),
+                };
+                let q = if fine {
+                    match self.rng.below(4) {
+                        0 | 1 => 1,
+                        2 => self.rng.range(2, 4) as u32,
+                        _ => self.rng.range(5, 40) as u32,
+                    }
+                } else {
+                    let e = self.rng.below(14);
+                    (1u32 << e) + (self.rng.next() % (1u64 << e)) as u32
                 };
                 (t, q)
             }
             Schedule::Pct(_, _) => {
                 let t = *runnable.iter().max_by_key(|t| self.prio[**t]).unwrap();
-                if self.change_at.contains(&i) {
-                    // demote the running thread below everyone else
-                    self.prio[t] = (self.change_at.len() as u64).saturating_sub(i as u64 % 7);
+                if self.last == Some(t) {
+                    self.streak += 1;
+                } else {
+                    self.streak = 0;
+                    self.last = Some(t);
                 }
-                (t, if self.change_at.contains(&(i + 1)) { 1 } else { 1 + (self.rng.next() % 3) as u32 })
+                if self.change_at.contains(&i) || self.streak > 4000 {
+                    // demote the running thread below everyone else (a priority change point, or it has
+                    // been spinning at synchronisation points for thousands of grants: starvation guard)
+                    self.demotions += 1;
+                    self.prio[t] = 1000u64.saturating_sub(self.demotions);
+                    self.streak = 0;
+                }
+                let e = self.rng.below(12);
+                (t, (1u32 << e) + (self.rng.next() % (1u64 << e)) as u32)
             }
             Schedule::RoundRobin(q) => {
                 if self.rr_left == 0 || !runnable.contains(&self.rr_cur) {
@@ -584,8 +620,22 @@ pub fn run_plan(plan: &SchedPlan, shared: &Shared, ref_shared: &Shared, refs: &m
                         last_progress[t] += 1;
                     }
                 }
-                if decisions.len() > 200_000 {
-                    break;
+                if decisions.len() > 400_000 {
+                    stalled = Some(format!("no termination after {} scheduling decisions (threads {:?} unfinished): livelock", decisions.len(), unfinished));
+                    let r = SRun {
+                        violation: None,
+                        digest: 0,
+                        decisions: decisions[..decisions.len().min(2000)].to_vec(),
+                        ops_run: 0,
+                        yields: 0,
+                        counters: Default::default(),
+                        object_histories: vec![],
+                        pair_kinds: vec![],
+                        log: vec![],
+                        stalled: stalled.clone(),
+                    };
+                    on_stall(&r);
+                    std::process::exit(4);
                 }
             }
         });
@@ -966,9 +1016,41 @@ pub fn gen_plan(seed: u64, cfg: &GenCfg) -> SchedPlan {
         }
         threads.push(ThreadPlan { ops, ..Default::default() });
     }
+    // cache-stress variant (15% of the runs): two variants of ONE operation kind (same call, different
+    // arguments) repeated by 2-4 threads, each thread mostly sticking to one variant - the access pattern
+    // under which a memo table, a "last value" cache or a lazily built table keyed or locked wrongly
+    // hands one caller the other caller's answer. Prepared elements and wNAF state are named by the
+    // property, so their families are three times as likely to be chosen.
+    let stress = r.chance(3, 20);
+    if stress {
+        let mut weighted: Vec<&Fam> = vec![];
+        for f in fams.iter() {
+            let w = if ["prepare", "pairing", "miller", "wnaf_bs", "wnaf_sb", "wnaf_view", "pre3", "pre256", "h2c", "h2f"].contains(&f.name) { 3 } else { 1 };
+            for _ in 0..w {
+                weighted.push(*f);
+            }
+        }
+        let f = *r.pick(&weighted);
+        let v1 = (f.gen)(&mut r, cfg);
+        let mut v2 = (f.gen)(&mut r, cfg);
+        for _ in 0..20 {
+            if v2.k == v1.k && v2 != v1 {
+                break;
+            }
+            v2 = (f.gen)(&mut r, cfg);
+        }
+        let nt = r.range(2, 4).min(if cfg.max_threads > 0 { cfg.max_threads.max(2) } else { 4 });
+        threads.clear();
+        for t in 0..nt {
+            let n = r.range(3, 6);
+            let ops = (0..n).map(|_| if r.chance(4, 5) == (t % 2 == 0) { v1.clone() } else { v2.clone() }).collect();
+            threads.push(ThreadPlan { ops, ..Default::default() });
+        }
+    }
+    let nthreads = threads.len();
     // contention variant: a third of the runs repeat two or three operations everywhere, so that
     // caches, lazily built tables and reused buffers see the same keys from several threads
-    if r.chance(1, 3) {
+    if !stress && r.chance(1, 3) {
         let all: Vec<Op> = threads.iter().flat_map(|t| t.ops.iter().cloned()).collect();
         let k = r.range(2, 3).min(all.len());
         let hot: Vec<Op> = (0..k).map(|_| r.pick(&all).clone()).collect();
